@@ -133,6 +133,8 @@ func (r *ReceiverReport) Unmarshal(rawPacket []byte) error {
 	}
 
 	r.SSRC = binary.BigEndian.Uint32(rawPacket[rrSSRCOffset:])
+	// start afresh: r may hold the result of an earlier decode
+	r.Reports = nil
 
 	for i := rrReportOffset; i < len(rawPacket) && len(r.Reports) < int(h.Count); i += receptionReportLength {
 		var rr ReceptionReport
